@@ -245,7 +245,7 @@ def run(ctx):
             d = gen.any_dataset(rng, fam, **kw)
             ds = d.ds
             gen.add_data_vars(rng, ds, {'face': d.spec['kinds']['face']}, names_prefix='q', n_extra_max=1)
-            if fam == 'shoc_simple' and 'time' in ds.dims:
+            if fam in ('shoc_simple', 'cf1d', 'cf2d', 'ugrid') and 'time' in ds.dims:
                 # SHOC simple files name their time coordinate 'time' (the convention looks it up by name); a bare
                 # dimension of that name without a variable is an artefact of the generator, not a SHOC file
                 tv = xarray.DataArray(numpy.array(['2000-01-01', '2000-01-02', '2000-01-03'][:ds.sizes['time']],
@@ -531,6 +531,16 @@ def run(ctx):
                     a.load(), b.load()
                     a.close(), b.close()
                 diff = datasets_equal(a, b)
+                if not diff:
+                    # as stored: the units of every variable (the time axis is rewritten for EMS by the library's save)
+                    import netCDF4
+                    with netCDF4.Dataset(out) as na, netCDF4.Dataset(lib) as nb:
+                        for vn in nb.variables:
+                            ua = getattr(na.variables[vn], 'units', None) if vn in na.variables else 'variable missing'
+                            ub = getattr(nb.variables[vn], 'units', None)
+                            if ua != ub:
+                                diff = f'variable {vn} is stored with units {ua!r}, the library writes {ub!r}'
+                                break
                 shutil.rmtree(work, ignore_errors=True)
                 if diff:
                     ctx.report('property', f'clip output differs from dataset.ems.clip of the same geometry: {diff}', case)
